@@ -45,9 +45,109 @@ def _case(draw):
                 rtol=1e-7, atol=1e-7, dense=False, shift=shift)
 
 
+@st.composite
+def _history(draw):
+    """fixed-step explicit / splitting methods under a history of integrate(), integrate(t), tf / t0 / dt assignments"""
+    method = draw(traj.method_name(families=["explicit_fixed", "splitting"], weights=[3, 1]))
+    fam = M.family(M.get(method))
+    t0, tf = draw(traj.span(max_len=6.0))
+    L = abs(tf - t0)
+    frac = draw(st.sampled_from([1 / 4.0, 1 / 8.0, 1 / 16.0, 1 / 64.0, 0.1, 0.05, 0.3, 0.013]))
+    prob = draw(PR.lin_params(dims=(1, 2) if fam != "splitting" else (2,), horizon=4 * L))
+    n = len(prob["A"])
+    ops = []
+    fr = st.sampled_from([0.01, -0.02, 0.03, 0.5, 1.5, 2.0, -1.0, 1.0, 0.25, 0.002])
+    for _ in range(draw(st.integers(2, 6))):
+        kind = draw(st.sampled_from(["integrate", "integrate", "integrate_to", "set_tf", "set_tf", "set_dt"]))
+        if kind == "integrate":
+            ops.append([kind])
+        elif kind == "set_dt":
+            ops.append([kind, draw(st.sampled_from([0.5, 2.0, 0.3]))])
+        else:
+            ops.append([kind, draw(fr)])
+    ops.append(["integrate"])
+    return dict(part="history", method=method, dtype="float64", prob=prob, y0=draw(PR.state([n])), t0=t0, tf=tf, dt=L * frac,
+                rtol=1e-7, atol=1e-7, dense=False, ops=ops)
+
+
 def parts(tier):
     q = tier == "quick"
-    return [Part("fixed", strategy=_case(), examples=900 if q else 20000, timeout=300)]
+    return [Part("fixed", strategy=_case(), examples=900 if q else 20000, timeout=300),
+            Part("history", strategy=_history(), examples=600 if q else 12000, timeout=300)]
+
+
+def _check_history(case):
+    """Model of the requested step D: the constructor's dt; `dt = x` replaces it; a call whose target is nearer than D
+    replaces it by half the distance (the library's documented rule, which persists). Every recorded step of a call but
+    the last has magnitude D, none is longer, the last is the remainder."""
+    import desolver as de
+    method = case["method"]
+    fam = M.family(M.get(method))
+    attrs = dict(method=method, family=fam)
+    t0, span = case["t0"], case["tf"] - case["t0"]
+    eps = float(np.finfo(np.float64).eps)
+    labels = ["history:" + fam]
+    a, f, y0 = traj.make_system(case)
+    Dreq = abs(case["dt"])
+    viols = []
+    moved_then_tf = False
+    calls = 0
+    hist = []
+    for op in case["ops"]:
+        kind = op[0]
+        hist.append(kind if len(op) == 1 else "{}({})".format(kind, op[1]))
+        if kind == "set_dt":
+            a.dt = float(a.dt) * op[1]
+            Dreq = abs(float(a.dt))
+            continue
+        if kind == "set_tf":
+            try:
+                a.tf = t0 + op[1] * span
+            except ValueError:
+                labels.append("tf_rejected")
+            else:
+                if len(a) > 1:
+                    moved_then_tf = True
+            continue
+        cur = float(a.t[-1])
+        target = float(a.tf) if kind == "integrate" else float(t0 + op[1] * span)
+        dist = abs(target - cur)
+        if dist <= 64 * eps * max(1.0, abs(cur), abs(target)):
+            err = traj.run_integrate(a, None if kind == "integrate" else np.float64(target), step_limit=len(a) + 140)
+            if err is not None:
+                labels.append("capped" if isinstance(err, traj.StepCap) else "raised_near_target")
+                break
+            continue
+        if Dreq > dist:
+            Dreq = 0.5 * dist
+        need = int(math.ceil(dist / Dreq)) + 2
+        if need > 4000:
+            labels.append("skipped:long_call")
+            break
+        n_before = len(a)
+        err = traj.run_integrate(a, None if kind == "integrate" else np.float64(target), step_limit=n_before + need)
+        if isinstance(err, traj.StepCap):
+            viols.append(V("too_many_steps", "{}: after {} the call from {!r} to {!r} recorded more than ceil(distance / requested step) + 2 = {} steps (requested step {!r}, system dt {!r})".format(
+                method, hist, cur, target, need, Dreq, float(a.dt)), fam, **attrs))
+            break
+        if err is not None:
+            viols.append(V("integrate_raised", "{}: after {}: {!r} caused by {!r}".format(method, hist, err, err.__cause__), fam + exc_sig(err), **attrs))
+            break
+        calls += 1
+        t = np.asarray(a.t, dtype=np.float64)[n_before - 1:]
+        steps = np.abs(np.diff(t))
+        tolr = 8 * eps * max(1.0, float(np.max(np.abs(t))))
+        if len(steps) and (np.any(steps > Dreq + tolr) or np.any(np.abs(steps[:-1] - Dreq) > tolr)):
+            k = int(np.argmax(np.abs(steps[:-1] - Dreq) > tolr)) if len(steps) > 1 and np.any(np.abs(steps[:-1] - Dreq) > tolr) else len(steps) - 1
+            viols.append(V("step_not_requested", "{}: after {} the call from {!r} to {!r} took a step of {!r} (step {} of {}) where {!r} was requested".format(
+                method, hist, cur, target, float(steps[k]), k, len(steps), Dreq), fam, **attrs))
+            break
+        if abs(float(t[-1]) - target) > 64 * eps * max(1.0, abs(target)):
+            viols.append(V("end_time", "{}: after {} the call to {!r} ended at {!r}".format(method, hist, target, float(t[-1])), fam, **attrs))
+            break
+    if moved_then_tf:
+        labels.append("tf_assigned_after_moving")
+    return viols, dict(nontrivial=bool(calls >= 2), labels=labels)
 
 
 def _run(case, fam):
@@ -62,6 +162,8 @@ def _run(case, fam):
 
 
 def check(case):
+    if case["part"] == "history":
+        return _check_history(case)
     import desolver as de
     method = case["method"]
     fam = M.family(M.get(method))
